@@ -1,0 +1,135 @@
+//go:build verif
+
+// Package verifspec is the vocabulary of the machine-checked contracts kept in
+// the zz_contracts_verif.go files (build tag "verif"). Nothing here is linked
+// into a normal build. The functions are given meaning by the verification
+// condition generator in /verif/kvc; the Go bodies below are the run-time
+// reading used when contracts are executed by bounded checks.
+package verifspec
+
+// Contract clauses (only meaningful inside //kvc:contract functions).
+func Requires(cond bool)                    {}
+func Ensures(label string, cond bool)       {}
+func Modifies(locations ...any)             {}
+func ModifiesAll()                          {}
+func Allocates()                            {}
+func Effect()                               {}
+func Monitor(label string, cond bool)       {}
+func Invariant(label string, cond bool, deps ...string) {}
+func Decreases(measure int)                 {}
+
+// Modifies helpers.
+func FieldOfAll(field any) any { return field }
+func AllMaps(m any) any        { return m }
+
+// Ghost statements.
+func Assert(label string, cond bool) {
+	if !cond {
+		panic("verifspec.Assert failed: " + label)
+	}
+}
+func Assume(cond bool)         {}
+func CrashPoint(label string)  {}
+func NondetBool() bool         { return false }
+func NondetInt() int           { return 0 }
+func NondetString() string     { return "" }
+func SomeError() error         { return errSome }
+
+type someError struct{}
+
+func (someError) Error() string { return "verifspec: some error" }
+
+var errSome error = someError{}
+
+// Old evaluates its argument in the pre-state of the enclosing contract.
+// At run time it is the identity (bounded checks snapshot explicitly).
+func Old[T any](x T) T { return x }
+
+func Implies(a, b bool) bool { return !a || b }
+func Iff(a, b bool) bool     { return a == b }
+
+// Bounded quantifiers (executable).
+func Forall(n int, body func(i int) bool) bool {
+	for i := 0; i < n; i++ {
+		if !body(i) {
+			return false
+		}
+	}
+	return true
+}
+
+func Exists(n int, body func(i int) bool) bool {
+	for i := 0; i < n; i++ {
+		if body(i) {
+			return true
+		}
+	}
+	return false
+}
+
+func ForallRange(lo, hi int, body func(i int) bool) bool {
+	for i := lo; i < hi; i++ {
+		if !body(i) {
+			return false
+		}
+	}
+	return true
+}
+
+func ExistsRange(lo, hi int, body func(i int) bool) bool {
+	for i := lo; i < hi; i++ {
+		if body(i) {
+			return true
+		}
+	}
+	return false
+}
+
+// Unbounded quantifiers: proof-only (not executable).
+func ForallInt(body func(i int) bool) bool          { panic("verifspec: proof-only quantifier") }
+func ForallInt2(body func(i, j int) bool) bool      { panic("verifspec: proof-only quantifier") }
+func ExistsInt(body func(i int) bool) bool          { panic("verifspec: proof-only quantifier") }
+func ForallString(body func(s string) bool) bool    { panic("verifspec: proof-only quantifier") }
+func ExistsString(body func(s string) bool) bool    { panic("verifspec: proof-only quantifier") }
+func ForallPtr[T any](body func(p *T) bool) bool    { panic("verifspec: proof-only quantifier") }
+func ExistsPtr[T any](body func(p *T) bool) bool    { panic("verifspec: proof-only quantifier") }
+
+// Has reports whether key k is present in map m.
+func Has[K comparable, V any](m map[K]V, k K) bool { _, ok := m[k]; return ok }
+
+// TypeIs reports whether the dynamic type of x is T.
+func TypeIs[T any](x any) bool { _, ok := x.(T); return ok }
+
+// As returns the value of dynamic type T held by x (zero value otherwise).
+func As[T any](x any) T { v, _ := x.(T); return v }
+
+func IsAllocated(p any) bool { return p != nil }
+
+func Itoa(n int) string {
+	if n == 0 {
+		return "0"
+	}
+	neg := n < 0
+	if neg {
+		n = -n
+	}
+	var b []byte
+	for n > 0 {
+		b = append([]byte{byte('0' + n%10)}, b...)
+		n /= 10
+	}
+	if neg {
+		return "-" + string(b)
+	}
+	return string(b)
+}
+
+func StrPrefixOf(prefix, s string) bool { return len(s) >= len(prefix) && s[:len(prefix)] == prefix }
+func StrContains(s, sub string) bool {
+	for i := 0; i+len(sub) <= len(s); i++ {
+		if s[i:i+len(sub)] == sub {
+			return true
+		}
+	}
+	return false
+}
